@@ -223,6 +223,9 @@ def expected_conn(registry, descrs, scripts, calls, info):
             res.append("o" if ok else "x")
             if ok and obj != "skip":
                 emit(obj)
+            if ok and st.policy == "s":
+                err = False
+                break
             if not ok:
                 if st.policy == "e":
                     err = True
